@@ -112,7 +112,12 @@ pub enum Op {
     Convert,
     CloneSwap,
     /// `dst.clone_from(&queue)` into a queue that already holds `pre`, then continue with dst
-    CloneFrom { pre: Vec<(u32, i64)> },
+    CloneFrom {
+        pre: Vec<(u32, i64)>,
+        /// true: the queue under test is the DESTINATION (`queue.clone_from(&other)`, other built from `pre`)
+        #[serde(default)]
+        into_self: bool,
+    },
     Drain { front: usize, back: usize, leak: bool },
     Clear,
     Reserve(usize),
@@ -1036,7 +1041,33 @@ impl<Q: QueueApi> State<Q> {
                 self.q = c;
                 Ok(Ret::Unit)
             }
-            Op::CloneFrom { pre } => {
+            Op::CloneFrom { pre, into_self: true } => {
+                let mut src = Q::q_new();
+                let mut srcm = Model::default();
+                for &(id, ord) in pre {
+                    let it = Item::new(id);
+                    let p = Prio::new(ord);
+                    let (tag, pay) = (p.tag, it.payload);
+                    src.push(it, p);
+                    match srcm.m.get_mut(&id) {
+                        Some(e) => {
+                            e.ord = ord;
+                            e.tag = tag;
+                        }
+                        None => {
+                            srcm.m.insert(id, MEnt { ord, tag, payload: pay });
+                        }
+                    }
+                }
+                self.q.q_clone_from(&src);
+                if !self.q.eq_q(&src) || !src.eq_q(&self.q) || self.q.ne_q(&src) {
+                    return Err(mon.other("M-EQ", "after queue.clone_from(&other) the queue is not equal to other".to_string()));
+                }
+                self.m = srcm;
+                self.order_suspended = false;
+                Ok(Ret::Unit)
+            }
+            Op::CloneFrom { pre, .. } => {
                 let mut dst = Q::q_new();
                 for &(id, ord) in pre {
                     dst.push(Item::new(id), Prio::new(ord));
